@@ -115,7 +115,19 @@ def make_call(cfg):
     if fn == 'randomizer_bin_und':
         alpha = float(p['alpha'])
         return lambda rng: f(W.copy(), alpha, seed=rng)
-    itr = budget_itr(int(p['iters']), edge_count(fn, W)) if 'iters' in p else p['itr']
+    if fn in ('null_model_und_sign', 'null_model_dir_sign'):
+        n = len(W)
+        bs = budget_itr(int(p['bin_iters']), n * (n - 1) // 2)   # forwarded to randmio_und_signed as itr
+        if p.get('dir_rewirer'):                                  # once the dir variant uses randmio_dir_signed
+            bs = budget_itr(int(p['bin_iters']), n * (n - 1))
+        wf = p['wei_freq']
+        return lambda rng: f(W.copy(), bin_swaps=bs, wei_freq=wf, seed=rng)
+    if fn == 'randmio_und_signed':
+        itr = budget_itr(int(p['iters']), len(W) * (len(W) - 1) // 2)
+    elif fn == 'randmio_dir_signed':
+        itr = budget_itr(int(p['iters']), len(W) * (len(W) - 1))
+    else:
+        itr = budget_itr(int(p['iters']), edge_count(fn, W)) if 'iters' in p else p['itr']
     return lambda rng: f(W.copy(), itr, seed=rng)
 
 
